@@ -516,6 +516,10 @@ func (x *l2run) fromjsonValue() {
 				if sameObs(ref, fo) {
 					continue
 				}
+				if fo.Panic && !ref.Panic {
+					d.goPanic(prog, in, ref, fo)
+					continue
+				}
 				if docCode != code && sameObs(refRun(docCode, in), fo) {
 					r.Count("documented_divergence:string key on a non-object decode value gives null", 1)
 					continue
